@@ -241,10 +241,14 @@ SpawnStart(t) ==          \* SPAWNED: std::thread::spawn returned
 (* stop-the-world by t.  phases: stop -> (setg: default ->) scan/update -> resume *)
 Live(u) == u \in started /\ u \notin finished       \* its Weak<ctx> can be upgraded
 
+\* the threads a stopper asks to stop.  "stop_skips_main" is NOT a deviation of the code: it is a
+\* hypothetical regression (seeded change C15-01: threads without a join handle, i.e. the engine
+\* thread, are skipped) kept as a mutant of the model - TLC must find the C15 counterexample.
+Asked(t) == IF "stop_skips_main" \in Defects /\ t # Main THEN (reg \cup {t}) \ {Main} ELSE reg \cup {t}
 StwStop(t) ==             \* STOP_SELF + STOP_OTHER for every registered thread (list mutex held)
   /\ pc[t] = "stw_stop" /\ listLock = None
-  /\ paused' = [u \in Thread |-> IF u \in reg \cup {t} THEN TRUE ELSE paused[u]]
-  /\ st' = [u \in Thread |-> IF u \in reg \cup {t}
+  /\ paused' = [u \in Thread |-> IF u \in Asked(t) THEN TRUE ELSE paused[u]]
+  /\ st' = [u \in Thread |-> IF u \in Asked(t)
                                 THEN (IF "irq_clobbered" \notin Defects /\ st[u] = "Interrupted" THEN st[u]
                                       ELSE "PausedAtSafepoint")
                                 ELSE st[u]]
